@@ -278,7 +278,7 @@ func runC13(c *core.Ctx) {
 		}
 		vp.add(s1, canon.Dump(v, c13KeyOpts), how)
 	}
-	skipTrip := func(path string) bool { return strings.HasPrefix(path, ".Vehicle->.") }          // only nil<->set of the back-reference
+	skipTrip := func(path string) bool { return strings.HasPrefix(path, ".Vehicle->.") }      // only nil<->set of the back-reference
 	skipVeh := func(path string) bool { return strings.HasPrefix(path, ".Trip->.Vehicle->") } // do not descend into the cycle
 
 	for i := 0; i < nBase; i++ {
